@@ -466,7 +466,68 @@ def r15_5(chk, mod):
            any(e.guards and any("isinstance" in c.key() and "str" in c.key() and pol for c, pol in e.guards) for e in ff.returns))
 
 
+def _regex_quote_blind(pat):
+    """(quote_aware, anchored) of a regular expression (syntax tree, re._parser)."""
+    import re._parser as sre
+    tree = sre.parse(pat)
+
+    def lits(sub):
+        out = set()
+        for op, av in sub:
+            opn = str(op)
+            if opn in ("LITERAL", "NOT_LITERAL"):
+                out.add(av)
+            elif opn == "IN":
+                out |= {x for o2, x in av if str(o2) == "LITERAL"}
+            elif opn in ("MAX_REPEAT", "MIN_REPEAT", "POSSESSIVE_REPEAT"):
+                out |= lits(av[2])
+            elif opn == "SUBPATTERN":
+                out |= lits(av[3])
+            elif opn == "BRANCH":
+                for b in av[1]:
+                    out |= lits(b)
+            elif opn in ("ASSERT", "ASSERT_NOT"):
+                out |= lits(av[1])
+        return out
+    return bool(lits(tree) & {34, 39}), (len(tree) > 0 and str(tree[0][0]) == "AT" and "BEGINNING" in str(tree[0][1]))
+
+
+def reader_substitutions(chk, mod):
+    """Every regex substitution applied to the text on the reading side (any function of fmt/cif.py that is not a writer): a pattern that
+    can match anywhere in a line and does not look at quotes deletes text inside quoted values."""
+    consts = {}
+    for t in mod.tree.body:
+        if isinstance(t, ast.Assign) and isinstance(t.targets[0], ast.Name) and isinstance(t.value, ast.Call) \
+                and getattr(t.value.func, "attr", None) == "compile" and t.value.args and isinstance(t.value.args[0], ast.Constant):
+            consts[t.targets[0].id] = t.value.args[0].value
+    writers = ("to_string", "format_field", "needs_quote", "to_file", "__str__", "__repr__")
+    n = 0
+    for qual, fn in mod.funcs.items():
+        if qual.split(".")[-1] in writers:
+            continue
+        for node in ast.walk(fn):
+            if not (isinstance(node, ast.Call) and isinstance(node.func, ast.Attribute) and node.func.attr in ("sub", "subn")):
+                continue
+            pat = None
+            recv = node.func.value
+            if isinstance(recv, ast.Name) and recv.id in consts:
+                pat = consts[recv.id]
+            elif isinstance(recv, ast.Name) and recv.id == "re" and node.args and isinstance(node.args[0], ast.Constant):
+                pat = node.args[0].value
+            elif isinstance(recv, ast.Name) and recv.id == "re" and node.args and isinstance(node.args[0], ast.Name) and node.args[0].id in consts:
+                pat = consts[node.args[0].id]
+            if pat is None:
+                continue
+            n += 1
+            qa, anch = _regex_quote_blind(pat)
+            chk.ob("R15.6", MOD, qual, "a regex substitution on the reading side is anchored at the start of the line or looks at quotes "
+                   "(otherwise it removes text inside quoted values, and the tokens after it)", qa or anch, node=node,
+                   fingerprint=f"reader-sub:{qual}", expected="no rewriting of data lines before tokenising", found=f"{ast.unparse(node)[:80]} with pattern {pat!r}")
+    return n
+
+
 def r15_6(chk, mod):
+    reader_substitutions(chk, mod)
     q = "Cif.from_string"
     ev = mod.ev(q)
     chk.saw(MOD, q)
